@@ -62,7 +62,22 @@ func (cx *Ctx) farmOtherCreators(r *Report) {
 	dbg := os.Getenv("DEBUG_C05P") != ""
 	for _, e := range entries {
 		evs := per[e.Name]
-		rule := pick(evs, "store.set", func(x hev) bool { return hasPrefix(x.ev, rulePfx) })
+		// only roots that *create* a pool: the rule is written as a fresh record whose
+		// remaining budget is its total (re-persisting a loaded rule is no creation)
+		rule := pick(evs, "store.set", func(x hev) bool {
+			if !hasPrefix(x.ev, rulePfx) {
+				return false
+			}
+			st := findSub(x.ev.Args[1], func(t *Term) bool { return t.Op == "struct" && t.Name == "RewardRule" })
+			if st == nil {
+				return false
+			}
+			f := map[string]string{}
+			for i := 0; i+1 < len(st.Args); i += 2 {
+				f[st.Args[i].Name] = st.Args[i+1].LooseString()
+			}
+			return f["TotalReward"] != "" && f["TotalReward"] == f["RemainingReward"]
+		})
 		if len(rule) == 0 {
 			continue
 		}
